@@ -5,7 +5,7 @@ import random
 from harness import core, htmlnorm, treegen, trees, xdoc
 
 GEN = ['gen_tables', 'gen_regex', 'gen_config', 'gen_escapes', 'gen_core']
-THEOREMS = ['C03_setext_heading', 'C03_setext_hypotheses', 'C03_indented_code_block', 'C03_indented_code_hypotheses', 'C03_link_scanners_are_the_source', 'C03_fragment_parses', 'C03_fragment_token_tree', 'C03_fragment_hypotheses', 'C03_fragment_fuel_suffices', 'C03_fragment_document',
+THEOREMS = ['C03_thematic_break', 'C03_thematic_configs', 'C03_setext_heading', 'C03_setext_hypotheses', 'C03_indented_code_block', 'C03_indented_code_hypotheses', 'C03_link_scanners_are_the_source', 'C03_fragment_parses', 'C03_fragment_token_tree', 'C03_fragment_hypotheses', 'C03_fragment_fuel_suffices', 'C03_fragment_document',
             'C03_fragment_html', 'C03_fragment_markdown_html', 'C03_fragment_html_instance', 'C03_fragment_paragraph_lines_instance', 'C03_fragment_headings_instance', 'C03_outline_lists', 'C03_outline_html', 'C03_outline_instance',
             'C03_fragment_document_markdown', 'C03_fragment_document_configs', 'C03_bounded_trees', 'C03_family_is_not_vacuous']
 TRUSTED = ['harness/treegen.py: the tree grammar, the speller (every free choice drawn and counted) and the direct HTML writer - the independent oracle; '
@@ -385,6 +385,21 @@ def run(ctx, only=None):
         if not ok:
             ctx.failing.append({'interface': 'oracle(setext heading)', 'input': {'text': text, 'setext_seed': seed},
                                 'what': 'plain lines followed by an underline are not one setext heading holding the lines', 'observed': got, 'expected': want, 'kf': None})
+    # thematic breaks of every length (C03_thematic_break): few enough to run them all
+    import mistletoe as _m
+    for c in '-_*':
+        for n in range(3, 40 if ctx.quick() else 200):
+            ctx.count('evaluations')
+            ctx.count('thematic_breaks')
+            t = c * n + '\n'
+            try:
+                got = _m.markdown(t)
+            except Exception as e:
+                got = 'EXC %s: %s' % (type(e).__name__, e)
+            if got != '<hr />\n':
+                ctx.failing.append({'interface': 'oracle(thematic break)', 'input': {'text': t}, 'what': 'a line of three or more - _ * is not a thematic break',
+                                    'observed': got, 'expected': '<hr />\n', 'kf': None})
+            ftexts.append(t)
     xdoc.run(ctx, texts + ftexts, cfgs=(0,))
 
 
